@@ -23,6 +23,8 @@ pub enum Content {
     /// `base` with `n` short copies (`mlen` bytes each) of earlier material planted at later, non-overlapping places:
     /// minimal-length matches that cost the sequence coder about as much as they save
     Planted { base: Box<Content>, n: usize, mlen: usize, seed: u64 },
+    /// the bytes of `base` repeated cyclically up to `len` (a short unit tiled over a block: few literals, all the rest matches)
+    Tile { base: Box<Content>, len: usize },
 }
 
 impl Content {
@@ -37,6 +39,7 @@ impl Content {
             | Content::Periodic { len, .. } => *len,
             Content::Concat(v) => v.iter().map(|c| c.len()).sum(),
             Content::Planted { base, .. } => base.len(),
+            Content::Tile { len, .. } => *len,
         }
     }
 
@@ -132,6 +135,16 @@ impl Content {
                     c.gen_into(out);
                 }
             }
+            Content::Tile { base, len } => {
+                let unit = base.generate();
+                if unit.is_empty() {
+                    out.extend(std::iter::repeat(0u8).take(*len));
+                } else {
+                    for i in 0..*len {
+                        out.push(unit[i % unit.len()]);
+                    }
+                }
+            }
             Content::Planted { base, n, mlen, seed } => {
                 let start = out.len();
                 base.gen_into(out);
@@ -188,6 +201,7 @@ impl Content {
             Content::Skewed { seed, skew, .. } => Content::Skewed { len: nl, seed: *seed, skew: *skew },
             Content::Repeats { seed, unit, far, .. } => Content::Repeats { len: nl, seed: *seed, unit: *unit, far: *far },
             Content::Periodic { period, seed, .. } => Content::Periodic { period: *period, len: nl, seed: *seed },
+            Content::Tile { base, .. } => Content::Tile { base: base.clone(), len: nl },
             Content::Concat(_) | Content::Planted { .. } => return None,
         })
     }
